@@ -85,7 +85,13 @@ fn garbage(rng: &mut Rng) -> f64 {
 }
 
 pub fn random_box(rng: &mut Rng) -> (DVec3, DVec3, &'static str) {
-    match rng.below(6) {
+    match rng.below(8) {
+        6 => {
+            // small absolute units (a nanometre-scale box expressed in metres)
+            let sc = [1e-6, 1e-7, 1e-9, 1e-12][rng.below(4) as usize];
+            (DVec3::new(0.5, -1.0, 0.25) * sc, DVec3::new(1.0, 1.5, 0.75) * sc, "tiny")
+        }
+        7 => (DVec3::new(-2e5, 1e5, 0.0), DVec3::new(3e5, 1e5, 2e5), "huge"),
         0 => (DVec3::ZERO, DVec3::ONE, "unit"),
         1 => (DVec3::splat(1.0), DVec3::splat(2.0), "cube12"),
         2 => {
